@@ -119,4 +119,7 @@ def run(check, ctx):
             ncopy += 1
     if ncopy < 10:
         raise AnalysisError("only %d native *_copy functions found (confirmed: 12)" % ncopy)
+    # native copies are independent: a keccak copy and its original continue separately (permutation uninterpreted)
+    from . import c_keccak
+    c_keccak.keccak_tables(check, ctx, rule="P6-c", groups=("copy",))
     check.undecided.append("concurrent use of the same object; atomicity assumptions of CPython containers; GMP's own thread safety")
